@@ -357,6 +357,7 @@ class Client(base_client.BaseClient):
                 self.logger.warning(
                     'WebSocket upgrade failed: unexpected recv exception: %s',
                     str(e))
+                ws.close()
                 return False
             try:
                 pkt = packet.Packet(encoded_packet=p)
@@ -366,6 +367,9 @@ class Client(base_client.BaseClient):
                     pkt.data != 'probe':
                 self.logger.warning(
                     'WebSocket upgrade failed: no PONG packet')
+                # let the server know that this upgrade was abandoned, so
+                # that it resumes the polling transport
+                ws.close()
                 return False
             p = packet.Packet(packet.UPGRADE).encode()
             try:
